@@ -502,7 +502,8 @@ func TestC08_EdgeScalarSweep(t *testing.T) {
 }
 
 // TestC08_KeyLengths: every key length 1..300 and selected lengths up to
-// 4 KiB (thorough: every length up to 1100), for a fixed pair of parties.
+// 4 KiB and around 8160/8192/65536 bytes (thorough: every length up to 1100),
+// for a fixed pair of parties.
 func TestC08_KeyLengths(t *testing.T) {
 	h.MarkExhaustive("key-lengths")
 	h.Sweep(t, h.P{Name: "key-lengths"}, func(emit func(kapCase)) {
@@ -519,7 +520,10 @@ func TestC08_KeyLengths(t *testing.T) {
 			c.Conv = n%2 == 0
 			emit(c)
 		}
-		for _, n := range []int{511, 512, 513, 1023, 1024, 1025, 2047, 2048, 2049, 4064, 4095, 4096} {
+		// ... and the lengths where the KDF's block counter grows a byte:
+		// 8160 = 255 blocks, 8161..8192 = 256 blocks; 65535..65537 bytes
+		for _, n := range []int{511, 512, 513, 1023, 1024, 1025, 2047, 2048, 2049, 4064, 4095, 4096,
+			8128, 8159, 8160, 8161, 8191, 8192, 8193, 8224, 65535, 65536, 65537} {
 			if n > upto {
 				c := base
 				c.KLen = n
